@@ -97,12 +97,13 @@ class GroupPipe:
     src_indices), so that the wiring itself is part of what is verified.  Implicit components contribute their
     residuals; their states are fresh symbols (or given).  IndepVarComp / auto-IVC outputs are the external inputs."""
 
-    def __init__(self, prob, root="", extra=None, skip=()):
+    def __init__(self, prob, root="", extra=None, skip=(), assume_for=None):
         import openmdao.api as om
 
         self.prob = prob
         self.model = prob.model
         self.extra = extra or {}
+        self.assume_for = assume_for or {}  # component class name -> fn(inputs) -> assumptions that prune its forks
         top = prob.model if not root else prob.model._get_subsystem(root)
         self.leaves = []
         for s in top.system_iter(recurse=True, include_self=False):
@@ -140,6 +141,9 @@ class GroupPipe:
 
         external = dict(external or {})
         states = dict(states or {})
+        self.guesses = {}
+        self.assumed = []
+        self.computed_for_guess = {}
         vals = {}
         resid = {}
         created = {}
@@ -186,7 +190,14 @@ class GroupPipe:
                             created[prom] = sv
                         vals[src] = sv
                     else:
-                        raise RuntimeError("source %s of %s has not been computed (cycle or ordering)" % (src, abs_in))
+                        # feedback connection of a coupled group, or the output of a subsystem that is not executed
+                        # here: an independent symbol ("guess"); the relation between guess and computed value is the
+                        # fixed-point equation of the coupling and is *not* assumed
+                        prom = self.prom_out.get(src, src)
+                        sv = symarray(prom, tuple(self.meta_out[src]["shape"]))
+                        vals[src] = sv
+                        created[prom] = sv
+                        self.guesses[src] = sv
                 a = _conv(sv, self.meta_out[src].get("units"), self.meta_in[abs_in].get("units"))
                 a = np.asarray(a, dtype=object)
                 m_in = self.model._var_abs2meta["input"].get(abs_in, {})
@@ -226,9 +237,15 @@ class GroupPipe:
                 for n in sc.out_names:
                     vals[comp.pathname + "." + n] = out[n]
             else:
-                out = sc.sym1(ins, assumptions=assumptions)
+                extra_assume = self.assume_for[type(comp).__name__](ins) if type(comp).__name__ in self.assume_for else []
+                self.assumed += extra_assume
+                out = sc.sym1(ins, assumptions=list(assumptions) + extra_assume)
                 for n in sc.out_names:
-                    vals[comp.pathname + "." + n] = out[n]
+                    absn = comp.pathname + "." + n
+                    if absn in self.guesses:
+                        self.computed_for_guess[absn] = out[n]  # the coupled value; downstream consumers keep the guess
+                    else:
+                        vals[absn] = out[n]
         self.vals, self.resid = vals, resid
         return vals, resid, created
 
